@@ -32,11 +32,16 @@ def battery_configs(tier):
         "one-full-one-usable": [GroupSpec((b(80),), (i(),)), GroupSpec((b(50, 100, 500),), (i(),))],
         "mixed": [GroupSpec((b(40),), (i(0, 400), i(100, 600))), GroupSpec((b(60, 300, 500),), (i(),))],
     }
+    # requested batteries that are left out of the distribution: reported as not working / no data received yet
+    cfgs["three-groups-third-not-working"] = ([GroupSpec((b(30),), (i(),)), GroupSpec((b(50, 100, 500),), (i(),)),
+                                               GroupSpec((b(70),), (i(),))], frozenset({2}), frozenset())
+    cfgs["three-groups-first-without-data"] = ([GroupSpec((b(30),), (i(),)), GroupSpec((b(50),), (i(0, 400),)),
+                                                GroupSpec((b(70),), (i(),))], frozenset(), frozenset({0}))
     if tier == "thorough":
         cfgs["three-groups"] = [GroupSpec((b(30),), (i(),)), GroupSpec((b(50, 100, 500),), (i(),)),
                                 GroupSpec((b(70),), (i(200, 1000),))]
         cfgs["two-by-two"] = [GroupSpec((b(40), b(55)), (i(0, 400), i(100, 600))), GroupSpec((b(60),), (i(),))]
-    return cfgs
+    return {k: (v if isinstance(v, tuple) else (v, frozenset(), frozenset())) for k, v in cfgs.items()}
 
 
 def battery_requests(groups):
@@ -120,8 +125,8 @@ CLAUSES = ["distribute_power_completes", "result_is_success_or_partial_failure",
            "success_iff_no_call_failed"]
 
 
-def eval_battery(groups, power, outcomes):
-    r = mgr.run_battery(groups, power, outcomes)
+def eval_battery(groups, power, outcomes, not_working=frozenset(), no_data=frozenset()):
+    r = mgr.run_battery(groups, power, outcomes, not_working=frozenset(not_working), no_data=frozenset(no_data))
     inv_to_comps = {}
     for bats, invs in r["layout"]:
         for i in invs:
@@ -138,9 +143,11 @@ def shard_fn(shard) -> Acc:
     kind, name, tier = shard
     acc = Acc()
     if kind == "battery":
-        groups = battery_configs(tier)[name]
-        inv_ids = [100 * (gi + 1) + 10 + ii for gi, g in enumerate(groups) for ii in range(len(g.invs))]
-        reqs = battery_requests(groups)
+        groups, not_working, no_data = battery_configs(tier)[name]
+        live = [g for gi, g in enumerate(groups) if gi not in not_working and gi not in no_data]
+        inv_ids = [100 * (gi + 1) + 10 + ii for gi, g in enumerate(groups) for ii in range(len(g.invs))
+                   if gi not in not_working and gi not in no_data]
+        reqs = battery_requests(live)
     else:
         invs = PV_SETS[name]
         inv_ids = [11 + k for k in range(len(invs))]
@@ -155,9 +162,10 @@ def shard_fn(shard) -> Acc:
         for vec in itertools.product(mgr.OUTCOMES, repeat=len(vary)):
             outcomes = dict(zip(vary, vec))
             if kind == "battery":
-                r, viol = eval_battery(groups, power, outcomes)
+                r, viol = eval_battery(groups, power, outcomes, not_working, no_data)
                 case = {"kind": kind, "config": name, "groups": [g.describe() for g in groups], "power": power,
-                        "outcomes": {str(k): v for k, v in outcomes.items()}}
+                        "outcomes": {str(k): v for k, v in outcomes.items()}, "not_working": sorted(not_working),
+                        "no_data": sorted(no_data)}
             else:
                 r, viol = eval_pv(invs, power, outcomes)
                 case = {"kind": kind, "config": name, "inverters": invs, "power": power,
@@ -189,7 +197,7 @@ def run(tier: str, seed: int, workers: int):
     acc = pmap_acc(shard_fn, shards, workers)
     meta = {
         "rule": "for each configuration (battery: topologies incl. two inverters per battery, two batteries per inverter, "
-        "a full group, exclusion bounds; PV: 1-4 inverters with different bounds) and each request from a derived menu "
+        "a full group, exclusion bounds, a requested group that is reported as not working or has not sent data yet; PV: 1-4 inverters with different bounds) and each request from a derived menu "
         "(both signs, incl. surplus over the inclusion bound), ALL 5^n outcome vectors (ok / OperationOutOfRange / "
         "ApiClientError / RuntimeError / no reply until timeout) over the set_power calls; each vector is run once on the "
         "real manager over the virtual loop; non-trivial = at least one failing call among >= 2 calls",
@@ -209,7 +217,7 @@ def replay(case: dict):
     outcomes = {int(k): v for k, v in case["outcomes"].items()}
     if case["kind"] == "battery":
         groups = [dist.group_from_json(g) for g in case["groups"]]
-        r, viol = eval_battery(groups, case["power"], outcomes)
+        r, viol = eval_battery(groups, case["power"], outcomes, case.get("not_working", ()), case.get("no_data", ()))
     else:
         r, viol = eval_pv([tuple(x) for x in case["inverters"]], case["power"], outcomes)
     return [(c, dict(d, calls=r["calls"], result=repr(r["result"])[:300])) for c, d in viol]
